@@ -164,6 +164,9 @@ func runCheck(prop, tier string, noReplay bool) int {
 		skipRe = regexp.MustCompile(ps.SkipIDs)
 	}
 	counts := func(v *Violation) bool {
+		if v.ID == "process-dies-with-a-host-panic" {
+			return true // a crash of the modelled process is every property's business, C07's first
+		}
 		if ps.PanicsOnly && v.Kind != "panic" {
 			return false
 		}
